@@ -1,6 +1,8 @@
 # -*- coding: utf-8 -*-
 
+from vsg import parser
 from vsg.rules import create_violation, utils as rules_utils
+from vsg.vhdlFile import utils
 
 
 def add_new_line_and_remove_new_line(self, oToi, sOption, oTokenType):
@@ -24,6 +26,8 @@ def analyze_remove_new_line_before(self, oToi):
     iToken = oToi.get_meta_data("iToken")
     lTokens = oToi.get_tokens()
     if rules_utils.token_at_beginning_of_line_in_token_list(iToken, lTokens):
+        if comment_between(lTokens, utils.find_previous_non_whitespace_token(iToken - 1, lTokens), iToken):
+            return
         oViolation = create_violation.remove_new_line(self, oToi)
         self.add_violation(oViolation)
 
@@ -49,5 +53,14 @@ def analyze_remove_new_line_after(self, oToi):
     iToken = oToi.get_meta_data("iToken")
     lTokens = oToi.get_tokens()
     if rules_utils.token_is_at_end_of_line(iToken, lTokens):
+        if comment_between(lTokens, iToken, utils.find_next_non_whitespace_token(iToken + 1, lTokens)):
+            return
         oViolation = create_violation.remove_new_line_after(self, oToi)
         self.add_violation(oViolation)
+
+
+def comment_between(lTokens, iStart, iEnd):
+    for oToken in lTokens[iStart:iEnd]:
+        if isinstance(oToken, parser.comment):
+            return True
+    return False
